@@ -208,7 +208,7 @@ def split_stream(stream, cuts):
 
 
 def run(res, rng, tier):
-    nchunk, nbam = (150, 50) if tier == 'quick' else (2500, 600)
+    nchunk, nbam = (90, 30) if tier == 'quick' else (2500, 600)
     cases = []
     for c in c02.corpus('C13'):
         cases.append(c)
@@ -256,7 +256,7 @@ def run(res, rng, tier):
     for name, ctype, fn, terms in (('c13', 'crcase', 'c13_agree', cr_terms), ('c13b', 'bamcase', 'c13bam_agree', bam_terms)):
         if not terms:
             continue
-        bad, err = core.coq_mismatches(HEADER, ctype, fn, [t[2] for t in terms], name, shard=20)
+        bad, err = core.coq_mismatches(HEADER, ctype, fn, [t[2] for t in terms], name, shard=30)
         if err:
             res.corr_bad.append(dict(error=err))
         for i in bad:
@@ -302,9 +302,12 @@ ASSUME = [
 ]
 
 CLAIM = dict(
-    text='Machine-checked proof (Coq 8.16.1) about the model of index.ChunkReader.Read and of bam.Reader Read/SetChunk/Iterator at the record-framing level, both written over the reader model of C02: '
-         'a ChunkReader over any ordered non-overlapping chunk list returns exactly the concatenated flat spans and then io.EOF for every buffer-size sequence; '
-         'SetChunk(Begin of record i, End of record j) yields records i..j and then io.EOF. Models are run against the implementation on generated files on every run; a flat-span oracle judges the implementation directly.',
-    note='chunk_replay rests on a framing hypothesis (BAM field decoding is not modelled). Members of 65536 bytes excluded (C02 finding). Trusted: Coq kernel, hand models (validated by correspondence). No axioms.',
+    text='Machine-checked proof (Coq 8.16.1) about the models of index.ChunkReader.Read and of bam.Reader Read/SetChunk at the record-framing level, both written over the reader model of C02: '
+         'a ChunkReader over any chunk list that is ordered and non-overlapping in the flat stream (valid ends, both representations of a block boundary, zero-length chunks) returns, for every buffer-size sequence, '
+         'a prefix of the concatenated flat spans, reports io.EOF only at the very end and only when everything was delivered (chunkreader_exact_partial, on the reader with store objects); '
+         'under the hypothesis that the stream after the header is a sequence of length-prefixed frames, SetChunk(Begin of record i, End of record j) from any later reader state yields exactly records i..j and then io.EOF (chunk_replay), '
+         'and the End offset recorded after a read is canonical. Models are run against the implementation on generated files on every run; a flat-span / record-layout oracle judges the implementation directly.',
+    note='Partial: termination of the ChunkReader stream is not proved; chunk_replay is on the value reader under the framing hypothesis (BAM field decoding not modelled), the Iterator loop is covered through "any later state" only; '
+         'members of 65536 bytes excluded (C02 finding). Trusted: Coq kernel, hand models (validated by correspondence), harness, oracle. No axioms.',
     technique='Coq proof over hand models + vm_compute correspondence + flat-span oracle',
     design='6/C13')
